@@ -384,6 +384,24 @@ def cover_1d(terms, n, nmin=1):
     from math import gcd
     L, D = 1, 0
     norm = []
+    guards_of = {}
+    terms3 = []
+    for tm in terms:
+        terms3.append(tuple(tm[:3]))
+        if len(tm) > 3 and tm[3]:
+            guards_of[len(terms3) - 1] = list(tm[3])
+    terms = terms3
+    for gl in guards_of.values():
+        for gd in gl:
+            if not (gd[0] == "op" and gd[1] in ("<", "<=", ">", ">=", "==", "!=")):
+                return "unknown", "guard %s is not a comparison" % sym.show(gd)
+            for side in (gd[2], gd[3]):
+                qa = quasi_affine(side, n)
+                if qa is None or qa[0] not in (0, 1):
+                    return "unknown", "guard operand %s is not n (rounded) plus a constant" % sym.show(side)
+                for m in qa[1]:
+                    L = L * m // gcd(L, m)
+                D = max(D, qa[2])
     for lp, g, sg in terms:
         st_ = sym.const_value(lp["step"])
         if st_ == -1 and lp["cmp"] in (">", ">="):
@@ -414,7 +432,16 @@ def cover_1d(terms, n, nmin=1):
     for nv in range(nmin, nmin + D + 2 * L + 2):
         env = {n: nv}
         seen = {}
-        for lp, g, sg in terms:
+        for ti, (lp, g, sg) in enumerate(terms):
+            skip_ = False
+            for gd in guards_of.get(ti, []):
+                ga, gb = _eval_int(gd[2], env), _eval_int(gd[3], env)
+                if ga is None or gb is None:
+                    return "unknown", "guard %s cannot be evaluated" % sym.show(gd)
+                if not {"<": ga < gb, "<=": ga <= gb, ">": ga > gb, ">=": ga >= gb, "==": ga == gb, "!=": ga != gb}[gd[1]]:
+                    skip_ = True
+            if skip_:
+                continue
             lo, hi, s = _eval_int(lp["lo"], env), _eval_int(lp["hi"], env), sym.const_value(lp["step"])
             if lo is None or hi is None:
                 return "unknown", "loop range [%s, %s) cannot be evaluated" % (sym.show(lp["lo"]), sym.show(lp["hi"]))
